@@ -557,6 +557,10 @@ def main(chk: core.Check) -> int:
         core.ensure_driver()
         explore(chk, ["mem", "journal-symlink", "journal-open"], 160 if quick else 3000)
         explore(chk, ["rdb", "cached", "grpc(mem)", "grpc(journal)"], 12 if quick else 300, controlled=False, tag="-free")
+        # SQLite, deterministically: one complete call of another worker placed before every SQL statement / commit of a call
+        from verif.props import c03_sql
+
+        c03_sql.explore(chk)
         # four threads issue the same compare-and-set at one instant, many times: a history with two True answers
         # has no linearization (sampled; decides nothing by itself about SQLite's locking)
         from verif.props import c04
@@ -566,7 +570,7 @@ def main(chk: core.Check) -> int:
         chk.broke("correspondence", {"driver": str(e)[:800]})
     chk.assumptions += [
         "preemption points are source lines of optuna/storages/** (not bytecodes, not C extensions)",
-        "SQLite / SQLAlchemy / gRPC server scheduling is not controlled: those backends run free threads (sampled)",
+        "gRPC server scheduling is not controlled (free threads, sampled); SQLite is explored both with free threads and, statement by statement, by c03_sql",
         "atomicity of one SQL transaction and of O_APPEND writes is trusted",
     ]
     return chk.finish(search=search)
@@ -574,6 +578,10 @@ def main(chk: core.Check) -> int:
 
 def replay(chk: core.Check, path: str) -> int:
     w = json.load(open(path))["witness"]
+    if w.get("part") == "sql":
+        from verif.props import c03_sql
+
+        return c03_sql.replay_case(chk, w)
     core.ensure_driver()
     drv = core.Driver("lin")
     try:
